@@ -10,7 +10,7 @@ and evaluated as trees by the model."""
 import itertools
 import os
 
-from vlib import core, gal
+from vlib import core, gal, exprparse
 from vlib.core import Report, zlit
 from vlib.gal import NULL
 
@@ -347,11 +347,13 @@ def main(tier, seed, replay=None):
     rep.trusted += ["coq/Model/Arith.v, Model/Values.v are hand models of the natives add/sub/mul/div/mod, of equality/order and of "
                     "NodeAnd/NodeOr/NodeNot/NodeIn: faithful only as far as the correspondence run shows",
                     "decimal results rely on PrimFloat = IEEE-754 binary64 = CPython float arithmetic",
-                    "precedence is decided by correspondence only (no parser theorem yet)"]
+                    "coq/Model/ExprParse.v is a hand model of the operator core of the parser (parse_expression .. parse_primary_expr with calls): the precedence "
+                    "theorems (C02_parse_render, C02_parse_chain, C02_parse_neg) are about it; it is tied to parse_script by running both on generated token lists and on the "
+                    "canonical texts of generated trees; the rest of the parser (statements, literals of collections, predicates, derefs) has no model"]
     I = impl.new_interpreter(False, False)
     if replay:
         return do_replay(rep, replay, I, impl)
-    ok = core.standard_coq(rep, ["Proofs/ArithProofs.vo", "Model/EncVal.vo"], "Props/C02.v", regen=regen)
+    ok = core.standard_coq(rep, ["Proofs/ArithProofs.vo", "Model/EncVal.vo", "Proofs/ExprParseMore.vo"], "Props/C02.v", regen=regen)
     if ok:
         cases = build_cases(tier, rnd)
         evals = []
@@ -389,6 +391,9 @@ def main(tier, seed, replay=None):
             for k in (0, len(cases) // 2, len(cases) - 1):
                 rep.sample({"program": cases[k][0], "env": [repr(v) for v in cases[k][2]], "model": got[k]})
     predicate_oracle(rep, I, impl)
+    if ok:
+        # precedence and association: the hand model of the operator core of the parser against parse_script
+        exprparse.correspondence(rep, rnd, tier)
     if tier == "thorough":
         core.coqchk(rep, "Ckl.Props.C02")
     return rep.finish()
